@@ -392,7 +392,17 @@ class DiagLayer:
                 # check if the message can be decoded as a global
                 # negative response for the service
                 gnr_found = False
+                request_prefix = b''
+                if service.request is not None:
+                    request_prefix = service.request.coded_const_prefix()
                 for gnr in self.global_negative_responses:
+                    # global negative responses only apply to the
+                    # service if their constant prefix (including the
+                    # echoed parts of the request) matches
+                    gnr_prefix = gnr.coded_const_prefix(request_prefix=request_prefix)
+                    if message[:len(gnr_prefix)] != gnr_prefix:
+                        continue
+
                     try:
                         decoded_gnr = gnr.decode(message)
                         gnr_found = True
